@@ -4,7 +4,10 @@ use alloc::boxed::Box;
 use core::marker::PhantomData;
 use core::ops::Deref;
 use core::ptr::NonNull;
+#[cfg(not(feature = "verif-hooks"))]
 use core::sync::atomic::fence;
+#[cfg(feature = "verif-hooks")]
+use crate::verif_hooks::fence;
 use core::sync::atomic::Ordering::SeqCst;
 
 pub struct BufRef<'buf, B> {
@@ -17,6 +20,8 @@ impl<'buf, B> BufRef<'buf, B> {
     #[cfg(feature = "alloc")]
     pub(crate) fn new(buf: B) -> Self {
         let x = Box::new(buf);
+        #[cfg(feature = "verif-hooks")]
+        crate::verif_hooks::event(crate::verif_hooks::Kind::BufAlloc, &*x as *const B as usize);
 
         Self {
             inner: NonNull::new(Box::into_raw(x)).unwrap(),
@@ -28,6 +33,8 @@ impl<'buf, B> BufRef<'buf, B> {
     #[cfg(feature = "alloc")]
     pub(crate) fn drop(&mut self) {
         if self.needs_drop {
+            #[cfg(feature = "verif-hooks")]
+            crate::verif_hooks::event(crate::verif_hooks::Kind::BufFree, self.inner.as_ptr() as usize);
             unsafe { let _ = Box::from_raw(self.inner.as_ptr()); }
         }
     }
